@@ -44,6 +44,11 @@ func main() {
 }
 
 func run() (code int) {
+	// go/packages resolves the "go" binary through this process's PATH.
+	os.Setenv("PATH", pickGoroot()+"/bin:"+os.Getenv("PATH"))
+	os.Setenv("GOTOOLCHAIN", "local")
+	os.Setenv("GOWORK", "off")
+	os.Unsetenv("GOROOT")
 	if len(os.Args) < 2 {
 		fmt.Fprintln(os.Stderr, "usage: garbleverif check <ID> [-tier quick|thorough] [-repo /repo] [-verif /verif] | list")
 		return 2
@@ -61,6 +66,8 @@ func run() (code int) {
 		return 0
 	case "dump":
 		return debugDump("/repo", os.Args[2:])
+	case "fsx":
+		return debugFsx("/repo")
 	case "check":
 	default:
 		fmt.Fprintln(os.Stderr, "unknown command", os.Args[1])
